@@ -251,6 +251,25 @@ def method_call(eng, node, st, preargs=None):
             src = args[0]
             base.extend(eng.as_seq(src, st))
             return NONE
+        if mname == "appendleft" and getattr(base, "is_deque", False):
+            old, v0 = base.fn, args[0]
+            n0 = z3.simplify(base.n)
+            if z3.is_int_value(n0) and n0.as_long() == 0:
+                base.fn = lambda j, v0=v0: v0
+            else:
+                base.fn = lambda j, old=old, v0=v0: vite(j == 0, v0, old(j - 1))
+            base.n = base.n + 1
+            return NONE
+        if mname == "rotate" and getattr(base, "is_deque", False):
+            k_ = args[0].concrete() if args and isinstance(args[0], IntV) else (args[0] if args else 1)
+            if k_ not in (1, -1):
+                raise Unsupported("deque.rotate by something other than +-1")
+            old, n_ = base.fn, base.n
+            if k_ == 1:   # the last element moves to the front
+                base.fn = lambda j, old=old, n_=n_: vite(j == 0, old(n_ - 1), old(j - 1))
+            else:         # the first element moves to the back
+                base.fn = lambda j, old=old, n_=n_: vite(j == n_ - 1, old(z3.IntVal(0)), old(j + 1))
+            return NONE
         raise Unsupported(f"list.{mname}")
     if isinstance(base, SetV) and mname in ("add", "update"):
         if not isinstance(f.value, ast.Name):
@@ -645,7 +664,20 @@ def b_bool(eng, st, a, kw):
     return BoolV(eng.truth(a[0], st))
 
 
+def b_deque(eng, st, a, kw):
+    """collections.deque(): a list with the extra operations appendleft / rotate(+-1) (axioms of the
+    trusted base: appendleft puts the element at index 0, rotate(1) moves the last element to the
+    front, rotate(-1) the first to the back)"""
+    if kw:
+        raise Unsupported("deque with maxlen")
+    out = b_list(eng, st, a, kw)
+    out.is_deque = True
+    return out
+
+
 SIMPLE = {
+    "collections.deque": b_deque,
+    "deque": b_deque,
     "len": b_len,
     "range": b_range,
     "enumerate": b_enumerate,
